@@ -314,7 +314,7 @@ PROPS["C12"] = dict(
     drive=dict(quick=dict(n=1500, size=3), thorough=dict(n=40000, size=6)),
     nontrivial=lambda e: (e["op"] == "reader" and len(e["args"]["input"]) >= 2) or (e["op"] == "decode" and len(e["args"]["bytes"]) > 10),
     corrupt=_corrupt_c12,
-    rule="cases: every input of <= MaxLen (5 quick / 6 thorough) bytes over {')', \"'\", CR, LF, 'x'} x every chunking (TLC InnerRead with any k), each also in front of a real document; seeded: every junk start byte, garbage incl. non-ASCII, \\n / \\r\\n / bare \\r / \\r x \\n endings, header only, valid / truncated / corrupted regular, Hermes and index documents, chunk schedules with 1-byte reads and boundaries at/inside the header end; distinct = distinct (op, args); non-trivial = >= 2 input bytes (reader) or a document (decode); JSON front-end members (non-UTF-8 / lone-surrogate / out-of-range values of unknown keys, deep nesting, repeated known keys); long junk lines whose terminator sits at offset 8190..8193 (mod 8192), read in full buffers or with a read ending at / before the '\\r'",
+    rule="cases: every input of <= MaxLen (5 quick / 6 thorough) bytes over {')', \"'\", CR, LF, 'x'} x every chunking (TLC InnerRead with any k), each also in front of a real document; seeded: every junk start byte, garbage incl. non-ASCII, \\n / \\r\\n / bare \\r / \\r x \\n endings, header only, valid / truncated / corrupted regular, Hermes and index documents, chunk schedules with 1-byte reads and boundaries at/inside the header end; distinct = distinct (op, args); non-trivial = >= 2 input bytes (reader) or a document (decode); JSON front-end members (non-UTF-8 / lone-surrogate / out-of-range values of unknown keys, deep nesting, repeated known keys); long junk lines whose terminator sits at offset 8190..8193 (mod 8192), read in full buffers or with a read ending at / before the '\\r'; sources that deliver a proper prefix (nothing, half, all but the last byte) and then FAIL with a hard error: no map may come out when the prefix, read as a slice, is none",
     assumptions=COMMON_ASSUMPTIONS + ["hook H2 (cfg sourcemap_verif) re-exports StripHeaderReader/strip_junk_header; add-only"],
 )
 HOOK_COMMITS.append("95aad40")
